@@ -37,7 +37,8 @@ Theorem binop_pure_table : forall op a b, is_eq_op op = false ->
     end
   end.
 Proof.
-  intros op a b Hop. destruct op; try discriminate Hop; destruct a, b; reflexivity.
+  intros op a b Hop.
+  destruct a; destruct op; try discriminate Hop; try reflexivity; destruct b; reflexivity.
 Qed.
 
 (* every operator on every pair of kinds yields a value or a TypeError with one of two messages;
@@ -51,9 +52,14 @@ Theorem ops_total : forall s op a b,
   | None => is_eq_op op = true
   end.
 Proof.
-  intros s op a b. destruct op; cbn [apply_binop];
-    try (destruct (veq EQ_FUEL s a b); [exact I | reflexivity]);
-    destruct a, b; cbn; auto.
+  intros s op a b. destruct (is_eq_op op) eqn:Hop.
+  - destruct op; try discriminate Hop; cbn [apply_binop];
+      (destruct (veq EQ_FUEL s a b); [exact I | reflexivity]).
+  - assert (He : apply_binop s op a b = Some (binop_pure op a b))
+      by (destruct op; try discriminate Hop; reflexivity).
+    rewrite He. clear He.
+    destruct a; destruct op; try discriminate Hop; cbn [binop_pure]; auto;
+      destruct b; cbn [binop_pure]; auto.
 Qed.
 Print Assumptions ops_total.
 
@@ -63,8 +69,9 @@ Theorem binop_value_iff : forall op a b, is_eq_op op = false ->
    ((exists x y, a = VNum x /\ b = VNum y) \/ (op = BAdd /\ exists x y, a = VStr x /\ b = VStr y))).
 Proof.
   intros op a b Hop; split.
-  - intros [v Hv]. destruct op; try discriminate Hop; destruct a, b; cbn in Hv; try discriminate Hv;
-      try (left; eauto; fail); right; split; eauto.
+  - intros [v Hv]. destruct a; destruct op; try discriminate Hop; cbn [binop_pure] in Hv;
+      try discriminate Hv; destruct b; try discriminate Hv; try (left; eauto; fail);
+      right; split; eauto.
   - intros [[x [y [-> ->]]] | [-> [x [y [-> ->]]]]].
     + destruct op; try discriminate Hop; cbn; eauto.
     + cbn; eauto.
@@ -232,7 +239,7 @@ Proof.
     + rewrite <- (IH s x y Hx Hy true Exy). cbn. apply IHx; assumption.
     + rewrite <- (IH s x y Hx Hy false Exy). inversion H. reflexivity.
   - inversion H. subst. symmetry.
-    revert es0 El. clear. induction es as [|x xs IHx]; intros [|y ys] El; cbn in *;
+    clear - El. revert es0 El. induction es as [|x xs IHx]; intros [|y ys] El; cbn in *;
       try reflexivity; try discriminate.
     rewrite (IHx ys El). apply andb_false_r.
 Qed.
@@ -247,31 +254,14 @@ Proof.
 Qed.
 
 Example veq_examples :
-  veq 10 empty_store (VTuple 1 [VNum f64_nan]) (VTuple 1 [VNum f64_nan]) = Some true /\
-  veq 10 empty_store (VTuple 1 [VNum f64_nan]) (VTuple 2 [VNum f64_nan]) = Some false /\
+  veq 10 empty_store (VTuple 1%positive [VNum f64_nan]) (VTuple 1%positive [VNum f64_nan]) = Some true /\
+  veq 10 empty_store (VTuple 1%positive [VNum f64_nan]) (VTuple 2%positive [VNum f64_nan]) = Some false /\
   veq 10 empty_store (VNum f64_zero) (VNum f64_neg_zero) = Some true /\
   key_eqb (VNum f64_zero) (VNum f64_neg_zero) = true.
 Proof. vm_compute. repeat split. Qed.
 
 (* ------------------------------------------------------------------ *)
 (* HashMap as an association list under ==                              *)
-Lemma map_lookup_insert_same : forall k v l, key_eqb k k = true ->
-  map_lookup k (fst (map_insert k v l)) = Some v.
-Proof.
-  intros k v l Hk. unfold map_insert.
-  destruct (map_replace k v l) as [[l' old]|] eqn:E; cbn.
-  - revert l' old E. induction l as [|[k' w] l IH]; intros l' old E; cbn in E; [discriminate|].
-    destruct (key_eqb k' k) eqn:Ek.
-    + inversion E; subst. cbn. rewrite Ek. reflexivity.
-    + destruct (map_replace k v l) as [[r' o]|] eqn:E'; [|discriminate].
-      inversion E; subst. cbn. rewrite Ek. eapply IH. reflexivity.
-  - clear E. induction l as [|[k' w] l IH]; cbn.
-    + rewrite Hk. reflexivity.
-    + destruct (key_eqb k' k) eqn:Ek; [|exact IH].
-      (* cannot happen when map_replace failed, but the lemma holds anyway only if the first match is
-         the inserted one; so we prove it under the hypothesis below instead *)
-Abort.
-
 Lemma map_replace_none : forall k v l, map_replace k v l = None -> map_lookup k l = None.
 Proof.
   intros k v. induction l as [|[k' w] l IH]; cbn; intros H; [reflexivity|].
